@@ -30,10 +30,14 @@ pub open spec fn stack_ok(s: Seq<(bool, NoGood)>, n: int) -> bool { forall|j: in
 pub open spec fn good_result(fs: Seq<BF>, v: Seq<Term>) -> bool {
     v.len() == fs.len() && (forall|j: int| 0 <= j < v.len() ==> decided(#[trigger] v[j])) && is_stable(fs, v)
 }
-pub open spec fn log_ok(l0: Seq<Seq<Term>>, l: Seq<Seq<Term>>, fs: Seq<BF>) -> bool {
+// the goal of the search: stable models (md == false) or two-valued models (md == true, the stability test is `true`)
+pub open spec fn goal(fs: Seq<BF>, md: bool, v: Seq<Term>) -> bool {
+    v.len() == fs.len() && (forall|j: int| 0 <= j < v.len() ==> decided(#[trigger] v[j])) && (if md { is_fix(fs, tvs(v)) } else { is_stable(fs, v) })
+}
+pub open spec fn log_ok(l0: Seq<Seq<Term>>, l: Seq<Seq<Term>>, fs: Seq<BF>, md: bool) -> bool {
     &&& l0.len() <= l.len()
     &&& forall|k: int| 0 <= k < l0.len() ==> l[k] == l0[k]
-    &&& forall|k: int| l0.len() <= k < l.len() ==> good_result(fs, #[trigger] l[k])
+    &&& forall|k: int| l0.len() <= k < l.len() ==> goal(fs, md, #[trigger] l[k])
 }
 // the functions denoted by a vector of handles do not change when the node table grows
 pub proof fn lemma_ext_dens(o: Seq<BddNode>, n: Seq<BddNode>, r: Seq<Term>)
@@ -75,11 +79,11 @@ pub proof fn lemma_cof_refines(f: BF, c: Seq<Term>, m: Seq<Term>)
     assert(ovr(masg(m), c, c.len() as int) =~= masg(m));
 }
 // a stable model is a two-valued model: every condition evaluates to the statement's own value
-pub proof fn lemma_stable_model(fs: Seq<BF>, m: Seq<Term>, p: int)
-    requires good_result(fs, m), m.len() < usize::MAX, 0 <= p < m.len(),
+pub proof fn lemma_stable_model(fs: Seq<BF>, md: bool, m: Seq<Term>, p: int)
+    requires goal(fs, md, m), m.len() < usize::MAX, 0 <= p < m.len(),
     ensures fs[p](masg(m)) == (m[p].0 == 1)
 {
-    lemma_stable_is_fix(fs, m);
+    if !md { lemma_stable_is_fix(fs, m); }
     assert(total(tvs(m))) by { assert forall|i: int| 0 <= i < tvs(m).len() implies (#[trigger] tvs(m)[i]).is_some() by { assert(decided(m[i])); } }
     lemma_total_fix_is_model(fs, tvs(m), p);
     assert(decided(m[p]));
@@ -114,14 +118,14 @@ pub proof fn lemma_tracks_more_decided(nodes: Seq<BddNode>, fs: Seq<BF>, c: Seq<
 }
 // one update step (every entry restricted by the decided entries): decided entries stay (canonicity), tracking is kept,
 // and every stable model that refined the old vector refines the new one
-pub proof fn lemma_update_step(o: Seq<BddNode>, n: Seq<BddNode>, fs: Seq<BF>, c: Seq<Term>, c2: Seq<Term>)
+pub proof fn lemma_update_step(o: Seq<BddNode>, n: Seq<BddNode>, fs: Seq<BF>, md: bool, c: Seq<Term>, c2: Seq<Term>)
     requires
         nodes_wf(n), nodup(n), ext(o, n), handles_in(o, c), handles_in(n, c2), c2.len() == c.len(), c.len() == fs.len(), c.len() < usize::MAX, o.len() >= 2,
         forall|i: int| 0 <= i < c.len() ==> den(n, (#[trigger] c2[i]).0 as int) == cof(den(o, c[i].0 as int), c, c.len() as int),
         tracks(o, fs, c),
     ensures
         le_tv(c, c2), tracks(n, fs, c2),
-        forall|m: Seq<Term>| #[trigger] good_result(fs, m) && le_tv(c, m) ==> le_tv(c2, m),
+        forall|m: Seq<Term>| #[trigger] goal(fs, md, m) && le_tv(c, m) ==> le_tv(c2, m),
 {
     let k = c.len() as int;
     assert forall|p: int| 0 <= p < k && decided(#[trigger] c[p]) implies c2[p] == c[p] by {
@@ -138,14 +142,14 @@ pub proof fn lemma_update_step(o: Seq<BddNode>, n: Seq<BddNode>, fs: Seq<BF>, c:
             lemma_cof_refines(den(o, c[p].0 as int), c, m);
         }
     }
-    assert forall|m: Seq<Term>| #[trigger] good_result(fs, m) && le_tv(c, m) implies le_tv(c2, m) by {
+    assert forall|m: Seq<Term>| #[trigger] goal(fs, md, m) && le_tv(c, m) implies le_tv(c2, m) by {
         assert forall|p: int| 0 <= p < k && decided(#[trigger] c2[p]) implies m[p] == c2[p] by {
             if decided(c[p]) { assert(c2[p] == c[p]); } else {
                 assert(two_valued(m));
                 assert(tracks_m(o, fs, c, m));
                 assert(und(c[p]));
                 lemma_cof_refines(den(o, c[p].0 as int), c, m);
-                lemma_stable_model(fs, m, p);
+                lemma_stable_model(fs, md, m, p);
                 // den(n, c2[p]) is the constant c2[p], and it equals fs[p] at m
                 assert(den(n, c2[p].0 as int)(masg(m)) == fs[p](masg(m)));
                 lemma_den_const(n, c2[p]);
@@ -159,17 +163,17 @@ pub proof fn lemma_den_const(nodes: Seq<BddNode>, t: Term)
     ensures forall|a: Asg| #[trigger] den(nodes, t.0 as int)(a) == (t.0 == 1)
 { lemma_const_eval(); }
 // a statement whose condition, restricted by c, is the constant opposite to the statement's own decided value: no stable model refines c
-pub proof fn lemma_ac_inconsistent(n: Seq<BddNode>, fs: Seq<BF>, c: Seq<Term>, acc: Seq<Term>, p: int)
+pub proof fn lemma_ac_inconsistent(n: Seq<BddNode>, fs: Seq<BF>, md: bool, c: Seq<Term>, acc: Seq<Term>, p: int)
     requires c.len() == fs.len(), c.len() < usize::MAX, acc.len() == c.len(), 0 <= p < c.len(),
         den(n, acc[p].0 as int) == cof(fs[p], c, c.len() as int),
         decided(c[p]), decided(acc[p]), (c[p].0 == 1) != (acc[p].0 == 1),
-    ensures forall|m: Seq<Term>| #[trigger] good_result(fs, m) ==> !le_tv(c, m)
+    ensures forall|m: Seq<Term>| #[trigger] goal(fs, md, m) ==> !le_tv(c, m)
 {
-    assert forall|m: Seq<Term>| #[trigger] good_result(fs, m) implies !le_tv(c, m) by {
+    assert forall|m: Seq<Term>| #[trigger] goal(fs, md, m) implies !le_tv(c, m) by {
         if le_tv(c, m) {
             assert(two_valued(m));
             lemma_cof_refines(fs[p], c, m);
-            lemma_stable_model(fs, m, p);
+            lemma_stable_model(fs, md, m, p);
             lemma_den_const(n, acc[p]);
             assert(m[p] == c[p]);
         }
@@ -178,6 +182,7 @@ pub proof fn lemma_ac_inconsistent(n: Seq<BddNode>, fs: Seq<BF>, c: Seq<Term>, a
 // ---- the combinatorial state of the search
 pub ghost struct SS {
     pub fs: Seq<BF>,                   // the conditions' functions
+    pub md: bool,                      // two-valued mode
     pub cur: Seq<Term>,                // cur_interpr
     pub stack: Seq<(bool, NoGood)>,    // stack
     pub hist: Seq<Seq<Term>>,          // interpr_history
@@ -186,7 +191,7 @@ pub ghost struct SS {
     pub sent: Seq<Seq<Term>>,          // results sent by this call
     pub bt: bool,                      // a backtrack is due: nothing unsent is left below cur
 }
-pub open spec fn unsent_stable(s: SS, m: Seq<Term>) -> bool { good_result(s.fs, m) && !s.sent.contains(m) }
+pub open spec fn unsent_stable(s: SS, m: Seq<Term>) -> bool { goal(s.fs, s.md, m) && !s.sent.contains(m) }
 pub open spec fn below_ng(g: &NoGood, tv: Seq<Term>) -> bool {
     forall|x: u32| #[trigger] g.act().contains(x) ==> (x as int) < tv.len() && decided(tv[x as int]) && (g.val().contains(x) == (tv[x as int].0 == 1))
 }
@@ -339,7 +344,7 @@ pub proof fn lemma_t_prop(s: SS, v: Seq<Term>, g: NoGood)
 // (3) cur replaced by a refinement that loses no stable model (one update step)
 pub open spec fn t_upd(s: SS, c2: Seq<Term>) -> SS { SS { cur: c2, ..s } }
 pub proof fn lemma_t_upd(s: SS, c2: Seq<Term>)
-    requires inv(s), !s.bt, le_tv(s.cur, c2), forall|m: Seq<Term>| #[trigger] good_result(s.fs, m) && le_tv(s.cur, m) ==> le_tv(c2, m),
+    requires inv(s), !s.bt, le_tv(s.cur, c2), forall|m: Seq<Term>| #[trigger] goal(s.fs, s.md, m) && le_tv(s.cur, m) ==> le_tv(c2, m),
     ensures inv(t_upd(s, c2))
 {
     reveal(inv);
@@ -374,7 +379,7 @@ pub open spec fn t_leaf(s: SS, g: NoGood, send: bool) -> SS {
     SS { stack: s.stack.push((false, g)), sent: if send { s.sent.push(s.cur) } else { s.sent }, bt: true, ..s }
 }
 pub proof fn lemma_t_leaf(s: SS, g: NoGood, send: bool)
-    requires inv(s), !s.bt, two_valued(s.cur), is_tv(&g, s.cur), wf_ng(&g), send == good_result(s.fs, s.cur),
+    requires inv(s), !s.bt, two_valued(s.cur), is_tv(&g, s.cur), wf_ng(&g), send == goal(s.fs, s.md, s.cur),
     ensures inv(t_leaf(s, g, send))
 {
     reveal(inv);
@@ -538,10 +543,10 @@ pub proof fn lemma_t_pop_choice(s: SS, st2: Seq<Vec<NoGood>>)
 // (8) the stack is exhausted while a backtrack is due: nothing is left
 pub proof fn lemma_done(s: SS)
     requires inv(s), s.bt, s.stack.len() == 0,
-    ensures forall|m: Seq<Term>| #[trigger] good_result(s.fs, m) ==> s.sent.contains(m)
+    ensures forall|m: Seq<Term>| #[trigger] goal(s.fs, s.md, m) ==> s.sent.contains(m)
 {
     reveal(inv);
-    assert forall|m: Seq<Term>| #[trigger] good_result(s.fs, m) implies s.sent.contains(m) by {
+    assert forall|m: Seq<Term>| #[trigger] goal(s.fs, s.md, m) implies s.sent.contains(m) by {
         if !s.sent.contains(m) { assert(unsent_stable(s, m)); let l = choose|l: int| pending_at(s, m, l); assert(0 <= s.hpos[l] < s.stack.len()); }
     }
 }
@@ -554,21 +559,21 @@ pub proof fn lemma_t_resume(s: SS)
     lemma_done(s);
     let s2 = t_resume(s);
     assert(safe(s2)) by { assert forall|m: Seq<Term>| #[trigger] unsent_stable(s2, m) implies avoids_all(ta(m), s2.store) by { assert(unsent_stable(s, m)); } }
-    assert(cov(s2)) by { assert forall|m: Seq<Term>| #[trigger] unsent_stable(s2, m) implies (!s2.bt && le_tv(s2.cur, m)) || pending(s2, m) by { assert(good_result(s.fs, m)); assert(false); } }
+    assert(cov(s2)) by { assert forall|m: Seq<Term>| #[trigger] unsent_stable(s2, m) implies (!s2.bt && le_tv(s2.cur, m)) || pending(s2, m) by { assert(goal(s.fs, s.md, m)); assert(false); } }
 }
 // the start: everything refines the initial interpretation, nothing is stored, nothing was sent
-pub open spec fn s_init(fs: Seq<BF>, c: Seq<Term>, st: Seq<Vec<NoGood>>) -> SS {
-    SS { fs: fs, cur: c, stack: Seq::empty(), hist: Seq::empty(), hpos: Seq::empty(), store: st, sent: Seq::empty(), bt: false }
+pub open spec fn s_init(fs: Seq<BF>, md: bool, c: Seq<Term>, st: Seq<Vec<NoGood>>) -> SS {
+    SS { fs: fs, md: md, cur: c, stack: Seq::empty(), hist: Seq::empty(), hpos: Seq::empty(), store: st, sent: Seq::empty(), bt: false }
 }
-pub proof fn lemma_s_init(fs: Seq<BF>, c: Seq<Term>, st: Seq<Vec<NoGood>>)
+pub proof fn lemma_s_init(fs: Seq<BF>, md: bool, c: Seq<Term>, st: Seq<Vec<NoGood>>)
     requires fs.len() <= u32::MAX, c.len() == fs.len(), store_wf(st), st.len() == fs.len(), forall|b: int| 0 <= b < st.len() ==> (#[trigger] st[b])@.len() == 0,
-        forall|m: Seq<Term>| #[trigger] good_result(fs, m) ==> le_tv(c, m),
-    ensures inv(s_init(fs, c, st))
+        forall|m: Seq<Term>| #[trigger] goal(fs, md, m) ==> le_tv(c, m),
+    ensures inv(s_init(fs, md, c, st))
 {
     reveal(inv);
-    let s = s_init(fs, c, st);
+    let s = s_init(fs, md, c, st);
     assert(safe(s)) by { assert forall|m: Seq<Term>| #[trigger] unsent_stable(s, m) implies avoids_all(ta(m), s.store) by { } }
-    assert(cov(s)) by { assert forall|m: Seq<Term>| #[trigger] unsent_stable(s, m) implies (!s.bt && le_tv(s.cur, m)) || pending(s, m) by { assert(good_result(fs, m)); } }
+    assert(cov(s)) by { assert forall|m: Seq<Term>| #[trigger] unsent_stable(s, m) implies (!s.bt && le_tv(s.cur, m)) || pending(s, m) by { assert(goal(fs, md, m)); } }
 }
 // ---- glue between the program variables and the ghost state
 pub open spec fn hview(h: Seq<Vec<Term>>) -> Seq<Seq<Term>> { Seq::new(h.len(), |i: int| h[i]@) }
@@ -606,12 +611,12 @@ pub proof fn lemma_tracks_init(nodes: Seq<BddNode>, fs: Seq<BF>, c: Seq<Term>)
     }
 }
 // every stable model refines the grounded interpretation (the least fixpoint)
-pub proof fn lemma_stable_refines_lfp(fs: Seq<BF>, c: Seq<Term>)
+pub proof fn lemma_stable_refines_lfp(fs: Seq<BF>, md: bool, c: Seq<Term>)
     requires is_lfp(fs, tvs(c)), c.len() == fs.len(), c.len() < usize::MAX,
-    ensures forall|m: Seq<Term>| #[trigger] good_result(fs, m) ==> le_tv(c, m)
+    ensures forall|m: Seq<Term>| #[trigger] goal(fs, md, m) ==> le_tv(c, m)
 {
-    assert forall|m: Seq<Term>| #[trigger] good_result(fs, m) implies le_tv(c, m) by {
-        lemma_stable_is_fix(fs, m);
+    assert forall|m: Seq<Term>| #[trigger] goal(fs, md, m) implies le_tv(c, m) by {
+        if !md { lemma_stable_is_fix(fs, m); }
         lemma_fix_refines_lfp(fs, tvs(c), tvs(m));
         assert forall|p: int| 0 <= p < c.len() && decided(#[trigger] c[p]) implies m[p] == c[p] by { assert(tvs(c)[p].is_some()); assert(tvs(m)[p] == tvs(c)[p]); assert(decided(m[p])); }
     }
@@ -679,7 +684,7 @@ pub open spec fn store_after2(old_st: Seq<Vec<NoGood>>, new_st: Seq<Vec<NoGood>>
 }
 // pushes (choice / propagation) and plain updates keep inv2
 pub proof fn lemma2_push(s: SS, s2: SS, g: NoGood, c2: Seq<Term>, f: bool)
-    requires inv2(s), !s.bt, !s2.bt, is_tv(&g, c2), c2.len() == s.fs.len(), s2.fs == s.fs, s2.cur == c2, s2.store == s.store, s2.sent == s.sent,
+    requires inv2(s), !s.bt, !s2.bt, is_tv(&g, c2), c2.len() == s.fs.len(), s2.fs == s.fs, s2.md == s.md, s2.cur == c2, s2.store == s.store, s2.sent == s.sent,
         s2.stack == s.stack.push((f, g)),
     ensures inv2(s2)
 {
@@ -690,7 +695,7 @@ pub proof fn lemma2_push(s: SS, s2: SS, g: NoGood, c2: Seq<Term>, f: bool)
     if s.fs.len() > 0 { assert forall|q: int| 0 <= q < s2.sent.len() implies #[trigger] blocked(s2, q) by { assert(blocked(s, q)); } }
 }
 pub proof fn lemma2_same(s: SS, s2: SS)
-    requires inv2(s), !s.bt, s2.fs == s.fs, s2.cur.len() == s.cur.len(), s2.stack == s.stack, s2.store == s.store, s2.sent == s.sent,
+    requires inv2(s), !s.bt, s2.fs == s.fs, s2.md == s.md, s2.cur.len() == s.cur.len(), s2.stack == s.stack, s2.store == s.store, s2.sent == s.sent,
     ensures inv2(s2)
 {
     reveal(inv2);
@@ -748,9 +753,9 @@ pub proof fn lemma2_pop(s: SS, st2: Seq<Vec<NoGood>>, s2: SS)
         }
     }
 }
-pub proof fn lemma2_init(fs: Seq<BF>, c: Seq<Term>, st: Seq<Vec<NoGood>>)
+pub proof fn lemma2_init(fs: Seq<BF>, md: bool, c: Seq<Term>, st: Seq<Vec<NoGood>>)
     requires fs.len() <= u32::MAX, c.len() == fs.len(), forall|b: int| 0 <= b < st.len() ==> (#[trigger] st[b])@.len() == 0,
-    ensures inv2(s_init(fs, c, st))
+    ensures inv2(s_init(fs, md, c, st))
 { reveal(inv2); }
 pub proof fn lemma2_once(s: SS)
     requires inv2(s), s.fs.len() > 0,
@@ -760,3 +765,37 @@ pub proof fn lemma2_shape(s: SS)
     requires inv2(s),
     ensures store_in(s.store, s.fs.len()), s.stack.len() > 0 ==> ng_in(&s.stack.last().1, s.fs.len())
 { reveal(inv2); if s.stack.len() > 0 { assert(ng_in(&s.stack[s.stack.len() - 1].1, s.fs.len())); } }
+// ================= two-valued mode: the leaf is a two-valued model =================
+// f looks only at the variables below n
+// a two-valued interpretation that passed the acceptance-condition consistency test is a two-valued model
+pub proof fn lemma_leaf_fix(nodes: Seq<BddNode>, fs: Seq<BF>, cur: Seq<Term>, acc: Seq<Term>)
+    requires nodes_wf(nodes), nodup(nodes), nodes.len() >= 2, two_valued(cur), cur.len() == fs.len(), acc.len() == fs.len(), cur.len() < usize::MAX,
+        handles_in(nodes, acc), all_dep_below(fs),
+        forall|p: int| 0 <= p < fs.len() ==> den(nodes, (#[trigger] acc[p]).0 as int) == cof(fs[p], cur, cur.len() as int),
+        forall|p: int| 0 <= p < fs.len() ==> !ac_bad(cur, acc, p),
+    ensures is_fix(fs, tvs(cur))
+{
+    let n = cur.len() as int;
+    let tv = tvs(cur);
+    lemma_const_eval();
+    assert forall|p: int| 0 <= p < fs.len() implies #[trigger] tv[p] == gamma_at(fs, tv, p) by {
+        let c = fs[p](masg(cur));
+        let f = cof(fs[p], cur, n);
+        assert forall|a: Asg| #[trigger] f(a) == bf_const(c)(a) by {
+            lemma_cof_eval(fs[p], cur, n, a);
+            assert(dep_below(fs[p], n));
+            assert forall|x: usize| (x as int) < n implies #[trigger] ovr(a, cur, n)(x) == masg(cur)(x) by { assert(decided(cur[x as int])); }
+            assert(agree_below(ovr(a, cur, n), masg(cur), n));
+            assert(fs[p](ovr(a, cur, n)) == fs[p](masg(cur)));
+        }
+        assert(f =~= bf_const(c));
+        // canonicity: the handle of a constant function is the terminal
+        let t = if c { 1int } else { 0int };
+        lemma_canon(nodes, acc[p].0 as int, t);
+        assert(decided(acc[p]));
+        assert(!ac_bad(cur, acc, p));
+        assert(decided(cur[p]));
+        lemma_cof_cofv(fs[p], cur);
+        lemma_const_ne();
+    }
+}
